@@ -19,7 +19,7 @@ import encoders
 
 CODES = {"kida": [1, 2, 3, 4, 5, 6], "umist": ["AD", "CD", "CE", "CP", "CR", "DR", "IN", "MN", "NN", "PH", "RA", "REA", "RR"],
          "leeds": [1, 2, 3, 4, 5], "uclchem": ["MA", "CRP", "PHOTON", "CRPHOT"], "naunet": [100, 101, 102, 110, 111, 120]}
-VALS = {"neg": [-2.5e-10, -0.5, -12.5, -3.0], "zero": [0.0], "pos": [2.5e-10, 0.5, 12.5, 3.0, 30450.0, 1e+300, 5e-324]}
+VALS = {"neg": [-2.5e-10, -0.5, -12.5, -3.0, -1e-05, -2e-07, -4e+20], "zero": [0.0], "pos": [2.5e-10, 0.5, 12.5, 3.0, 30450.0, 1e+300, 5e-324, 1e-05, 3e+22]}
 
 
 def pair(x: float):
@@ -92,36 +92,59 @@ def main(ctx: Ctx) -> int:
                         r1 = rng.choice(["H2", "CO", "N2"] if fmt == "leeds" else ["CO"])
                         sh = r1
                     cases.append({"fmt": fmt, "code": code, "a": a, "b": b, "c": c, "sh": sh, "r1": r1})
-    traces = []
+    # groups of cases rendered as ONE network: every case alone, plus pairs of entries of the SAME reaction (same species, window and
+    # type) with different coefficients, as merged databases and multi-fit entries have them: each k[i] must follow its own line
+    groups = [[ci] for ci in range(len(cases))]
+    bykey: dict = {}
     for ci, cs in enumerate(cases):
-        fmt, code = cs["fmt"], cs["code"]
-        mark = {("kida", 1): "CR", ("kida", 2): "Photon", ("umist", "CP"): "CRP", ("umist", "CR"): "CRPHOT", ("umist", "PH"): "PHOTON",
-                ("leeds", 2): "CRP", ("leeds", 3): "CRPHOT", ("leeds", 4): "PHOTON"}.get((fmt, code))
-        rec = {"r": [cs["r1"]] + ([mark] if mark else ([] if fmt == "uclchem" and code != "MA" else ["H"])), "p": ["C", "H"], "a": cs["a"], "b": cs["b"],
-               "c": cs["c"], "tmin": -1.0, "tmax": -1.0, "idx": 1, "code": code}
-        if fmt == "leeds":
-            rec["tmin"], rec["tmax"] = 0.0, 0.0
-        line = encoders.ENCODERS[fmt](rec)
-        a, b, c = (printed_value(fmt, k, cs[k]) for k in ("a", "b", "c"))
-        f = ctx.sub("in") / f"{ci}.txt"
-        f.write_text(line + "\n")
-        obs = {"refused": False, "valid": True, "tree": ["none"], "expr": "", "err": ""}
+        bykey.setdefault((cs["fmt"], cs["code"], cs["r1"], cs["sh"]), []).append(ci)
+    for key, lst in sorted(bykey.items(), key=lambda kv: str(kv[0])):
+        distinct = [ci for ci in lst if (cases[ci]["a"], cases[ci]["b"], cases[ci]["c"]) != (cases[lst[0]]["a"], cases[lst[0]]["b"], cases[lst[0]]["c"])]
+        for ci2 in distinct[: (1 if ctx.quick else 4)]:
+            groups.append([lst[0], ci2])
+    cov["same_reaction_pairs"] = len(groups) - len(cases)
+    traces = []
+    mark_of = {("kida", 1): "CR", ("kida", 2): "Photon", ("umist", "CP"): "CRP", ("umist", "CR"): "CRPHOT", ("umist", "PH"): "PHOTON",
+               ("leeds", 2): "CRP", ("leeds", 3): "CRPHOT", ("leeds", 4): "PHOTON"}
+    for gi, grp in enumerate(groups):
+        fmt = cases[grp[0]]["fmt"]
+        lines = []
+        for pos, ci in enumerate(grp):
+            cs = cases[ci]
+            code = cs["code"]
+            mark = mark_of.get((fmt, code))
+            rec = {"r": [cs["r1"]] + ([mark] if mark else ([] if fmt == "uclchem" and code != "MA" else ["H"])), "p": ["C", "H"], "a": cs["a"], "b": cs["b"],
+                   "c": cs["c"], "tmin": -1.0, "tmax": -1.0, "idx": pos + 1, "code": code}
+            if fmt == "leeds":
+                rec["tmin"], rec["tmax"] = 0.0, 0.0
+            lines.append(encoders.ENCODERS[fmt](rec))
+        f = ctx.sub("in") / f"{gi}.txt"
+        f.write_text("\n".join(lines) + "\n")
+        sts, refused = None, None
         try:
             net = Network(filelist=str(f), fileformats=fmt)
-            out = ctx.scratch / "r" / str(ci)
+            out = ctx.scratch / "r" / str(gi)
             render(net, "cvode", "dense", out, templates=["src/naunet_rates.cpp.j2"])
-            st = creader.read_rates((out / "src/naunet_rates.cpp").read_text())
-            obs["expr"] = st[0]["expr"]
-            try:
-                obs["tree"] = cexpr.canon(cexpr.parse(st[0]["expr"]))
-            except cexpr.ParseError as e:
-                obs["valid"] = False
-                obs["err"] = str(e)
+            sts = creader.read_rates((out / "src/naunet_rates.cpp").read_text())
         except (NotImplementedError, RuntimeError, ValueError) as e:
-            obs["refused"] = True
-            obs["err"] = f"{type(e).__name__}: {str(e)[:80]}"
-        traces.append({"tid": ci + 1, "fmt": fmt, "code": code, "a": pair(a), "b": pair(b), "c": pair(c), "zb": b == 0, "zc": c == 0, "sh": cs["sh"],
-                       "obs": obs, "line": line, "vals": [a, b, c]})
+            refused = f"{type(e).__name__}: {str(e)[:80]}"
+        if sts is not None and len(sts) != len(grp):
+            raise MachineryError(f"{len(sts)} rate statements for {len(grp)} lines: {lines}")
+        for pos, ci in enumerate(grp):
+            cs = cases[ci]
+            a, b, c = (printed_value(fmt, k, cs[k]) for k in ("a", "b", "c"))
+            obs = {"refused": False, "valid": True, "tree": ["none"], "expr": "", "err": ""}
+            if refused is not None:
+                obs["refused"], obs["err"] = True, refused
+            else:
+                obs["expr"] = sts[pos]["expr"]
+                try:
+                    obs["tree"] = cexpr.canon(cexpr.parse(sts[pos]["expr"]))
+                except cexpr.ParseError as e:
+                    obs["valid"] = False
+                    obs["err"] = str(e)
+            traces.append({"tid": len(traces) + 1, "fmt": fmt, "code": cs["code"], "a": pair(a), "b": pair(b), "c": pair(c), "zb": b == 0, "zc": c == 0, "sh": cs["sh"],
+                           "obs": obs, "line": lines[pos], "vals": [a, b, c], "paired": len(grp) > 1})
     v = validate_traces(ctx, "Trace_RateLaws.tla", "Trace_RateLaws.cfg",
                         [{k: t[k] for k in ("tid", "fmt", "code", "a", "b", "c", "zb", "zc", "sh", "obs")} for t in traces], "laws", chunk=2000)
     cov["traces_validated_against_impl"] = len(traces)
